@@ -288,9 +288,9 @@ func c39Refs(st storage.Storer, u *c39Uni) map[string]string {
 
 func runC39(c *fw.Ctx) {
 	u := c39Universe()
-	c.SetRule("server states = refs {a,b} x {absent,h1,h2,h3} (+ whether h3's objects are stored); requests = every set of 1-2 commands on distinct refs with old in {zero,h1,h2} and new in {zero,h1 (stored), h3 (delivered in the pack), hM (nowhere)}; explicit-state BFS over all server states reachable within 2 requests, each transition executed by the real transport.ReceivePack (stateless, report-status) on a memory and on a filesystem(mcfs) server preloaded to the model state; oracle = CAS model: a command is applied iff its old value equals the current one and its new object exists; no ref may point to a missing object; the report-status line of each ref is ok iff it was applied; each transition also on a server whose refs are packed-only, with a refusing pre-receive hook (nothing applied, all ng) and with a truncated pack (invariants: applied => old matched, new stored with its tree and blob, reported ok); the post-receive hook must be told exactly the applied commands; plus (sched) every pair of conflicting single-command pushes over {update, create, delete} on one ref (loose, packed-only or absent) of one filesystem server under every interleaving of filesystem calls: reported outcomes and final value must be those of one of the two serial orders. distinct = (state, request, outcome) classes")
+	c.SetRule("server states = refs {a,b} x {absent,h1,h2,h3} (+ whether h3's objects are stored); requests = every set of 1-2 commands on distinct refs with old in {zero,h1,h2,hM (an object the server lacks)} and new in {zero,h1 (stored), h3 (delivered in the pack), hM (nowhere)}; explicit-state BFS over all server states reachable within 2 requests, each transition executed by the real transport.ReceivePack (stateless, report-status) on a memory and on a filesystem(mcfs) server preloaded to the model state; oracle = CAS model: a command is applied iff its old value equals the current one and its new object exists; no ref may point to a missing object; the report-status line of each ref is ok iff it was applied; each transition also on a server whose refs are packed-only, with a refusing pre-receive hook (nothing applied, all ng) and with a truncated pack (invariants: applied => old matched, new stored with its tree and blob, reported ok); the post-receive hook must be told exactly the applied commands; plus (sched) every pair of conflicting single-command pushes over {update, create, delete} on one ref (loose, packed-only or absent) of one filesystem server under every interleaving of filesystem calls: reported outcomes and final value must be those of one of the two serial orders. distinct = (state, request, outcome) classes")
 	c.Assume("duplicate ref names within one request are excluded (the report format is keyed by name); atomic and push-options not driven")
-	olds := []string{"zero", "h1", "h2"}
+	olds := []string{"zero", "h1", "h2", "hM"} // hM: an old value naming an object the server does not have (such a command is always stale)
 	news := []string{"zero", "h1", "h3", "hM"}
 	var single []c39Cmd
 	for _, r := range []string{"a", "b"} {
